@@ -19,9 +19,14 @@ def generate_and_drive(ctx):
     inp = ctx.write_ndjson("cenc.ndjson", cases)
     t7 = os.path.join(ctx.scratch, "trace07.ndjson")
     t6 = os.path.join(ctx.scratch, "trace06.ndjson")
-    s = core.absorb(ctx, ctx.harness(["cenc-drive", "-in", inp, "-trace07", t7, "-trace06", t6], timeout=3000))
+    encbin = ctx.build_repo_binary("./cmd/mp4ff-encrypt", "mp4ff-encrypt")
+    decbin = ctx.build_repo_binary("./cmd/mp4ff-decrypt", "mp4ff-decrypt")
+    s = core.absorb(ctx, ctx.harness(["cenc-drive", "-in", inp, "-trace07", t7, "-trace06", t6, "-encbin", encbin, "-decbin", decbin], timeout=3000))
+    if s["extra"]["tool_runs"] < 50:
+        raise core.Machinery("only %d runs of the mp4ff-encrypt / mp4ff-decrypt binaries" % s["extra"]["tool_runs"])
     ctx.cov["bounds"] = {"nal_sizes": "classes around 16/96/112/128 and the 64 KiB clear-run split", "nals_per_sample": "1..2 (3 for the 64 KiB set)",
                          "samples_per_fragment": "1..3", "schemes": ["cenc (avc, hevc, audio)", "cbcs (audio; avc: generated multi-slice samples with real slice-header heads, and corpus init.mp4+1.m4s)"],
                          "ivs": "8 and 16 bytes: zero, one, ..00ff (carry), ff..fe, ff..ff (wrap), mixed, random",
-                         "extra_boxes": ["none", "vndr+zzzz+moof-level uuid", "also a non-senc uuid inside traf"]}
+                         "extra_boxes": ["none", "vndr+zzzz+moof-level uuid", "also a non-senc uuid inside traf"],
+                         "paths": "library API (InitProtect / EncryptFragment / DecryptInit / DecryptSegment) on every case; the built mp4ff-encrypt and mp4ff-decrypt binaries on %d of them" % s["extra"]["tool_runs"]}
     return s, t7, t6
